@@ -152,16 +152,16 @@ package sstables
 // C15: the stream writer accepts strictly ascending keys only; a rejected or failed write leaves the writer's
 // observable in-memory state (last key, MinKey, counters, bloom filter) as it was; an accepted write updates it.
 
+// swReady(w): the representation invariant of an opened stream writer.
+//@ spec func swReady(w *SSTableStreamWriter) Bool = w.opts != nil && w.opts.keyComparator != nil && w.dataWriter != nil && w.indexWriter != nil &&
+//@      (w.opts.enableBloomFilter ==> w.bloomFilter != nil) && w.metaData != nil &&
+//@      (!isnil(w.lastKey) ==> !isnil(w.metaData.MinKey) && arr(w.lastKey) != arr(w.metaData.MinKey))
+
 //@ func (*SSTableStreamWriter).WriteNext
 //@   props C15 C11
 //@   replay stream_writer_writenext
-//@   requires writer.opts != nil && writer.opts.keyComparator != nil
-//@   requires writer.dataWriter != nil && writer.indexWriter != nil
-//@   requires writer.opts.enableBloomFilter ==> writer.bloomFilter != nil
-//@   requires !isnil(writer.lastKey) ==> writer.metaData != nil && !isnil(writer.metaData.MinKey)
-//@   requires writer.metaData != nil ==> writer.metaData.NumRecords < 9223372036854775807 && writer.metaData.NullValues <= writer.metaData.NumRecords
-//@   requires !isnil(writer.lastKey) ==> arr(writer.lastKey) != arr(key) && arr(writer.metaData.MinKey) != arr(key) &&
-//@            arr(writer.lastKey) != arr(writer.metaData.MinKey)
+//@   requires [writer-opened] swReady(writer)
+//@   ensures [stays-ready] swReady(writer)
 //@   ensures [rejects-non-ascending] old(!isnil(writer.lastKey)) &&
 //@           cmpv(writer.opts.keyComparator, old(content(writer.lastKey)), old(content(key))) >= 0 ==> r0 != nil
 //@   ensures [rejected-touches-no-file] old(!isnil(writer.lastKey)) &&
@@ -178,10 +178,47 @@ package sstables
 //@   ensures [success-appends-both] r0 == nil ==> wrCount(writer.dataWriter) == old(wrCount(writer.dataWriter)) + 1 &&
 //@           pwCount(writer.indexWriter) == old(pwCount(writer.indexWriter)) + 1
 //@   ensures [success-last-key] r0 == nil ==> !isnil(writer.lastKey) && content(writer.lastKey) == old(content(key))
-//@   ensures [success-counts] r0 == nil ==> writer.metaData.NumRecords == old(writer.metaData.NumRecords) + 1 &&
+//@   ensures [success-counts] r0 == nil && old(writer.metaData.NumRecords) < 18446744073709551615 && old(writer.metaData.NullValues) < 18446744073709551615 ==>
+//@           writer.metaData.NumRecords == old(writer.metaData.NumRecords) + 1 &&
 //@           writer.metaData.NullValues == old(writer.metaData.NullValues) + (isnil(value) ? 1 : 0)
 //@   ensures [success-min-key] r0 == nil ==> !isnil(writer.metaData.MinKey) &&
 //@           content(writer.metaData.MinKey) == (old(isnil(writer.lastKey)) ? old(content(key)) : old(content(writer.metaData.MinKey)))
 //@   ensures [success-bloom] r0 == nil && writer.opts.enableBloomFilter ==> bfAdds(writer.bloomFilter) == old(bfAdds(writer.bloomFilter)) + 1
 //@   call 0 of WriterI.Seek: assert [rollback-target] arg0 == preWriteOffset
-//@   modifies *
+//@   modifies writer.lastKey, writer.lastKey[*], writer.metaData.MinKey, writer.metaData.NumRecords, writer.metaData.NullValues,
+//@            bfAdds(writer.bloomFilter), bfHas(writer.bloomFilter), wrCount(writer.dataWriter), wrSize(writer.dataWriter), wrSeeks(writer.dataWriter),
+//@            pwCount(writer.indexWriter), hsum(*)
+
+// ---------------------------------------------------------------------------------------------------
+// Stream writer life cycle as seen by callers (flush, compaction). These contracts are not yet verified against
+// the bodies (constructor with functional options, file creation): they are marked assumed and listed in the evidence.
+
+//@ func WithKeyComparator
+//@   assumed
+//@   modifies nothing
+//@ func WriteBasePath
+//@   assumed
+//@   modifies nothing
+//@ func WriteBufferSizeBytes
+//@   assumed
+//@   modifies nothing
+//@ func BloomExpectedNumberOfElements
+//@   assumed
+//@   modifies nothing
+
+//@ func NewSSTableStreamWriter
+//@   assumed
+//@   ensures r1 == nil ==> r0 != nil && r0.opts != nil && r0.opts.keyComparator != nil
+//@   ensures r1 != nil ==> r0 == nil
+//@   fresh r0
+//@   modifies nothing
+
+//@ func (*SSTableStreamWriter).Open
+//@   assumed
+//@   requires writer.opts != nil && writer.opts.keyComparator != nil
+//@   ensures r0 == nil ==> swReady(writer) && isnil(writer.lastKey) && writer.opts == old(writer.opts)
+//@   modifies writer.*
+
+//@ func (*SSTableStreamWriter).Close
+//@   assumed
+//@   modifies writer.*, writer.metaData.*
